@@ -32,6 +32,8 @@ HARNESS = {
                     repo=['librfn/fibre.c', 'librfn/messageq.c', 'librfn/list.c', 'librfn/util.c', 'librfn/posix/time_posix.c'],
                     asan=False, repo_cflags=['-fsanitize=thread'], libs=['-ldl', '-rdynamic'],
                     about='isched: fibre.c, messageq.c, list.c object code instrumented with -fsanitize=thread under harness/isched/vrt.c'),
+    'pt': dict(kind='script', script='pt/pt_check.py', interp='python3-vt',
+               about='Hypothesis program generator + emitter (real protothreads.h, gcc -O0) + reference interpreter'),
     'list': dict(cpp=['h/h_list.cpp'], c=['adp/adp_list.c'], repo=['librfn/list.c']),
 }
 
@@ -455,6 +457,27 @@ PROPS = {
                      'happens-before follows the C11 rules as implemented in vrt.c; a failed CAS is accounted with its success order (can hide, never invent, a race)',
                      'library calls such as memset in the *_init functions are not instrumented; they only run in single-context set-up, which happens-before every context'],
         technique='fuzzing of schedules with an in-harness vector-clock (FastTrack-style) happens-before detector driven by the compiled-in memory orders; real ThreadSanitizer soak in the thorough tier',
+    ),
+    'C08': dict(
+        title='Protothreads resume exactly where they blocked and relay child results',
+        rule='case = a program (Hypothesis recursive strategy): main protothread + up to 3 child threads forming a DAG; statements Emit, '
+             'assignments to persistent (static) variables, if/else, bounded for/while (nesting <= 3, private loop variables), PT_YIELD, '
+             'PT_WAIT, PT_WAIT_UNTIL with an observable self-advancing condition, PT_EXIT(_ON), PT_FAIL(_ON), PT_SPAWN followed by '
+             'Emit(PT_CHILD_OK() ? a : b), PT_SPAWN_AND_CHECK, PT_CALL; one blocking macro per source line, no switch. The program is '
+             'emitted as C over the real include/librfn/protothreads.h, compiled with gcc -O0 and driven until exit (optionally PT_INIT and '
+             'a second round); its per-invocation trace (events, return code) must equal that of a reference interpreter over the same '
+             'AST in which every thread is a Python generator. Non-trivial: a blocking point executed inside a loop inside a '
+             'conditional, or a child spawned more than once, or a failing child. Distinct = distinct ASTs (SHA-1).',
+        stages=[
+            dict(h='pt', mode='script', what='generated programs vs reference interpreter',
+                 quick=dict(params=dict(cases=4800), timeout=900), thorough=dict(params=dict(cases=120000), timeout=3400)),
+        ],
+        require={'blocking point inside a loop inside a conditional': 20, 'a child spawned more than once': 100, 'a failing child': 50,
+                 'child yield/wait relayed upward': 100, 'two rounds (PT_INIT after exit)': 100},
+        assumptions=['the grammar covers compositions without goto, switch and do/while+continue; one PT_* blocking macro per source line',
+                     'gcc -O0 of the sandbox compiles the macros; a different compiler is not examined'],
+        technique='property-based testing of programs: Hypothesis-generated ASTs, compiled against the real macros, compared with a reference interpreter (differential)',
+        level_note='trusts the reference interpreter (Python generators), gcc and Hypothesis; programs outside the grammar are not examined',
     ),
     'C09': dict(
         title='Linked list behaves as a sequence under every order of operations',
